@@ -262,7 +262,7 @@ def shape_labels(case, labs: List[str]) -> None:
 
 
 def plan(tier: str, seed: int, scale: float = 1.0) -> List[Dict[str, Any]]:
-    nshards, n = (48, 200) if tier == "quick" else (320, 220)
+    nshards, n = (64, 200) if tier == "quick" else (320, 220)
     return [{"seed": seed * 7919 + i, "n": max(10, int(n * scale)), "timeout": 900} for i in range(nshards)]
 
 
